@@ -24,3 +24,18 @@ Print Assumptions C06_simpleaudio_gapless_across_calls.
 Example C06_simpleaudio_example :
   map pseq (enc_many 65534 [[1;2;3]; [4]; [5;6]]) = [65534; 65535; 0].
 Proof. reflexivity. Qed.
+
+(* ---- the translated kernels (tools/go2coq, spec.d/simpleaudio.txt; regenerated from the Go source on every run) ----
+   Marker: false and e.sequenceNumber++ of rtpsimpleaudio/encoder.go are the marker and the next sequence number of
+   Model.enc. *)
+From Coq Require Import ZArith.
+From GVG Require Import Kern.
+From GV_simpleaudio Require Import BridgeLib Bridge.
+Open Scope Z_scope.
+Theorem C06_simpleaudio_kernels_are_the_code : forall (s : N) (frame : bytes),
+  k_simpleaudio_marker = pmarker (fst (enc s frame)) /\
+  k_simpleaudio_seq (Z.of_N s) = Z.of_N (snd (enc s frame)).
+Proof. exact enc_kernels_are_the_code. Qed.
+Print Assumptions C06_simpleaudio_kernels_are_the_code.
+Example C06_simpleaudio_example_kernels : k_simpleaudio_seq 65535 = 0 /\ k_simpleaudio_seq 7 = 8 /\ k_simpleaudio_marker = false.
+Proof. vm_compute. repeat split. Qed.
